@@ -167,6 +167,41 @@ namespace {
         return std::string("?type:") + o.getTypeName();
     }
 }
+namespace {
+    std::string warn_class(std::string const& m) {
+        auto starts = [&](char const* p) { return m.rfind(p, 0) == 0; };
+        if (m == "treating unexpected brace token as null") return "brace";
+        if (m == "treating unexpected array close token as null") return "arrclose";
+        if (m == "unexpected dictionary close token") return "dictclose";
+        if (m == "empty object treated as null") return "empty";
+        if (m == "unknown token while reading object; treating as string") return "unkstr";
+        if (m == "unknown token while reading object; treating as null") return "unknull";
+        if (m == "treating unknown token type as null while reading object") return "unktype";
+        if (m == "parse error while reading object") return "parseerr";
+        if (starts("treating bad indirect reference (")) return "badref";
+        if (m == "dictionary ended prematurely; using null as value for last key") return "premature";
+        if (m == "expected dictionary keys but found non-name objects; ignoring") return "nonname";
+        if (starts("expected dictionary key but found non-name object; inserting key ")) return "fakekey";
+        if (starts("dictionary has duplicated key ")) return "dupkey";
+        if (m == "too many errors; giving up on reading object") return "toomany";
+        if (starts("limits error(parser-max-nesting)")) return "limnest";
+        if (starts("limits error(parser-max-container-size-damaged)")) return "limcd";
+        if (starts("limits error(parser-max-container-size)")) return "limc";
+        if (starts("limits error(parser-max-errors)")) return "limerr";
+        if (m == "unexpected array close token; giving up on reading object") return "giveuparr";
+        if (m == "unexpected dictionary close token; giving up on reading object") return "giveupdict";
+        if (starts("unexpected 'endobj' or 'endstream' while reading object")) return "giveupend";
+        if (starts("treating object as null because of error during parsing")) return "exception";
+        return err_class(m);      // tokenizer messages ("unexpected EOF" is shared with the parser)
+    }
+    std::string warn_list(QPDF& q) {
+        auto ws = q.getWarnings();
+        if (ws.empty()) return "0";
+        std::string r;
+        for (auto const& w: ws) { if (!r.empty()) r += ","; r += warn_class(w.getMessageDetail()); }
+        return r;
+    }
+}
 static Reg r_objparse("objparse", [](std::vector<std::string> const& a) -> std::string {
     std::string in = unhex(a.at(0));
     QPDF q;
@@ -174,8 +209,9 @@ static Reg r_objparse("objparse", [](std::vector<std::string> const& a) -> std::
     q.setSuppressWarnings(true);
     try {
         auto o = QPDFObjectHandle::parse(&q, in, "drv");
-        return show_obj(o, 0) + " w=" + std::to_string(q.getWarnings().size());
+        return show_obj(o, 0) + " w=" + warn_list(q);
     } catch (QPDFExc const& e) {
-        return "exc:" + hex(e.getMessageDetail()) + " w=" + std::to_string(q.getWarnings().size());
+        std::string m = e.getMessageDetail();
+        return (m == "trailing data found parsing object from string" ? std::string("exc:trailing") : "exc:" + hex(m)) + " w=" + warn_list(q);
     }
 });
